@@ -91,14 +91,13 @@ CHECKS = {
   'design_ref': 'DESIGN.md §7 C17',
  },
  'C02': {
-  'text': 'Proof (partial): the well-formedness invariant (every charge list has the length of the dimension it labels, every non-zero entry obeys the additive rule) is preserved by every '
-          'modelled public operation (orthonormalize MPS/MPO both modes incl. dummy bonds, +, -, @, apply_operator, zero_qnumbers, copy) for every kernel with the shape clause only, '
-          'and by compress under the output condition scale != 0 (a collapse example shows the condition cannot be dropped for arbitrary oracles; under the C12 norm/sort contracts and '
-          '0 <= tol < 1 at least one value is kept); by induction it holds in every reachable state of any history (run_wf*). Boundary charges are kept by orthonormalize for non-zero '
-          'states/operators (full, via C01), by compress when the returned factors are non-zero, and by single-site TDVP. The history model also contains from_vector (invariant proved for every oracle) and '
-          'TDVP1/2, DMRG1/2: for these, charge-list lengths after TDVP1 and sector preservation of the local Hamiltonian map are proved; block sparsity of their results is carried by the exact '
-          'correspondence of histories (wf flag compared after every step) and listed under not_proved (22 theorems).',
-  'note': KERNEL_NOTE + ' Only shape clauses of the QR/SVD kernels are needed for the invariant.',
+  'text': 'Proof (nearly full): the well-formedness invariant (every charge list has the length of the dimension it labels, every non-zero entry obeys the additive rule) is preserved by every '
+          'operation of the history model — orthonormalize MPS/MPO (both modes, dummy bonds), +, -, @, apply_operator, zero_qnumbers, copy, from_vector, single-/two-site TDVP and DMRG — for every '
+          'kernel family with the shape clauses only (TDVP/DMRG: sector closure of the Lanczos recurrence and of the local Hamiltonian / bond maps, environment blocks stay block sparse, QR/SVD '
+          'factors sparse by C11/C12; precondition EvoCompat: H.qd = psi.qd, leading MPO bond charge 0), and by compress under the C13 contracts with 0 <= tol < 1 (scale != 0 is proved); by induction '
+          'it holds in every reachable state of any history (run_wf_all). Boundary charges are kept for non-zero objects by orthonormalize, compress (non-zero factors), TDVP1/TDVP2 and DMRG1 (under '
+          'the C10 contracts); for DMRG2 only the trailing charge (47 theorems). Constructors with a numeric fill and graph->MPO are tied by their own exact correspondences (C02 constructors stream, C05).',
+  'note': KERNEL_NOTE + ' Only shape clauses of the QR/SVD kernels are needed for the invariant; compress additionally uses the norm/sort/abs contracts.',
   'design_ref': 'DESIGN.md §7 C02',
  },
  'C19': {
